@@ -33,6 +33,7 @@ mod c14live;
 mod gen_wizard;
 mod c15;
 mod c16;
+mod c16h3;
 mod c17;
 mod c18;
 mod c19;
@@ -107,6 +108,7 @@ fn main() {
         "c10h3" | "c01h3" => c10::run_h3(&mut ctx),
         "c05live" => c05live::run(&mut ctx),
         "c12live" => c12live::run(&mut ctx),
+        "c16h3" => c16h3::run(&mut ctx),
         "c14est" => c10::run_establish(&mut ctx),
         "c14live" => c14live::run(&mut ctx),
         "c11" => c11::run(&mut ctx),
